@@ -1,6 +1,7 @@
 //! Helpers shared by the bb-level checks (C14, C16, …).
 extern crate iceoryx2_bb_loggers;
 
+pub mod families;
 pub mod models;
 pub mod reloc;
 pub mod tracked;
